@@ -111,6 +111,7 @@ type Exec struct {
 	log       []string
 	trace     []string
 	objSeq    int
+	tick      int
 	spinRel   int
 	spinEpoch uint64
 }
@@ -458,19 +459,20 @@ func GoNamed(label string, f func()) *Thread {
 	e.zombieCheck()
 	if label == "" {
 		for skip := 1; skip < 6; skip++ {
-			_, file, line, ok := runtime.Caller(skip)
+			pc, file, _, ok := runtime.Caller(skip)
 			if !ok {
 				break
 			}
 			if strings.Contains(file, "/zzverif/") || strings.Contains(file, "/rt/vrt/") {
 				continue
 			}
-			if i := strings.LastIndex(file, "/"); i >= 0 {
-				if j := strings.LastIndex(file[:i], "/"); j >= 0 {
-					file = file[j+1:]
+			// label = spawning function, e.g. "martian.(*Proxy).Serve" (stable across rewriting)
+			if fn := runtime.FuncForPC(pc); fn != nil {
+				label = fn.Name()
+				if i := strings.LastIndex(label, "/"); i >= 0 {
+					label = label[i+1:]
 				}
 			}
-			label = fmt.Sprintf("%s:%d", file, line)
 			break
 		}
 	}
@@ -513,6 +515,33 @@ func Log(format string, args ...interface{}) {
 		return
 	}
 	e.log = append(e.log, fmt.Sprintf(format, args...))
+}
+
+// Tick returns a fresh, strictly increasing event number of the current execution (harness event ordering).
+func Tick() int {
+	e := current()
+	if e == nil {
+		return 0
+	}
+	e.tick++
+	return e.tick
+}
+
+// Snapshot lists all threads of the current execution (harness oracles: "has the handler finished?").
+func Snapshot() []ThreadInfo {
+	e := current()
+	if e == nil {
+		return nil
+	}
+	var out []ThreadInfo
+	for _, t := range e.threads {
+		ti := ThreadInfo{ID: t.id, Label: t.label, Done: t.done}
+		if !t.done {
+			ti.Blocked = t.op
+		}
+		out = append(out, ti)
+	}
+	return out
 }
 
 // ObjID hands out small allocation-ordered ids for objects (used in traces instead of addresses).
